@@ -35,13 +35,15 @@ DOT_KEYS = ["dotkey", "dotkey_only", "dotkey_end"]
 # values that are themselves synced collections of a family with weaker rules (they may legally hold dotted
 # keys); only meaningful for the attribute families
 SYNCED_DOT = ["synced_dict_dotkey", "synced_list_dotkey", "synced_child_dotkey"]
-SHAPES = ["top", "in_list", "in_dict", "in_tuple", "in_list_in_dict", "in_dict_in_list", "deep3", "with_siblings"]
+SHAPES = ["top", "in_list", "in_dict", "in_tuple", "in_list_in_dict", "in_dict_in_list", "in_list_in_list", "deep3",
+          "with_siblings"]
 
 D_INIT = {"d": {"x": 1}, "l": [1, {"y": 2}, [3]], "ld": [{"dl": [0, {"z": 1}]}], "s": "v"}
 L_INIT = [{"x": 1}, [1, {"y": 2}], 5, [[{"w": 0}]]]
 D_TARGETS = [[], ["d"], ["l"], ["l", 1], ["ld", 0, "dl"], ["ld", 0, "dl", 1]]
 L_TARGETS = [[], [0], [1], [1, 1], [3, 0], [3, 0, 0]]
-DICT_ENTRIES = ["setitem", "setdefault", "update_mapping", "update_pairs", "update_kwargs", "update_mixed", "reset"]
+DICT_ENTRIES = ["setitem", "setdefault", "update_mapping", "update_pairs", "update_kwargs", "update_mixed", "reset",
+                "update_over_container", "reset_over_container", "setitem_over_container"]
 LIST_ENTRIES = ["setitem", "slice", "append", "extend", "insert", "iadd", "reset", "extend_gen"]
 SINGLE = {"setitem", "setdefault", "append", "insert", "update_kwargs"}
 KNOWN_PUBLIC = {
@@ -95,6 +97,8 @@ def wrap(item, shape):
         return {"k": ["a", item]}
     if shape == "in_dict_in_list":
         return [{"k": item}]
+    if shape == "in_list_in_list":
+        return [[item], 1]
     if shape == "deep3":
         return {"a": [{"b": [item]}]}
     if shape == "with_siblings":
@@ -243,6 +247,18 @@ def attempt(info, cell):
                     node.update(newk=val)
             elif entry == "update_mixed":
                 node.update({"ok": 1}, newk=val)
+            elif entry in ("update_over_container", "reset_over_container", "setitem_over_container"):
+                # the position already holds a nested dict or list (the merge first tries an in-place update of it)
+                held = [k for k, v in node._data.items() if not isinstance(v, (str, int, float, bool, type(None)))]
+                if not held:
+                    return None, False
+                k0 = held[0]
+                if entry == "update_over_container":
+                    node.update({k0: val})
+                elif entry == "reset_over_container":
+                    node.reset({k0: val})
+                else:
+                    node[k0] = val
             elif entry == "reset":
                 if isinstance(node._data, dict):
                     node.reset(val if (kind in BAD_KEYS + DOT_KEYS and shape == "top") else {"newk": val, "d": {"x": 1}})
